@@ -73,6 +73,7 @@ PROPERTY_MODULES = {
     'C32': ['contracts.c32_order'],
     'C03': ['contracts.c03_coloring'],
     'C04': ['contracts.c02_adjoint', 'contracts.c08_scaling', 'contracts.c04_transfer'],
+    'C07': ['contracts.c07_setget'],
     'C15': ['contracts.c15_interp'],
     'C16': ['contracts.c15_interp'],
 }
@@ -544,3 +545,27 @@ GAPS['C04'] = ['connection resolution and promotion name matching in conn_graph 
                'the Indexer classes that produce the per-level positions (C05: bounded tier there; known finding F5a)', 'DefaultTransfer._setup_transfers / _setup_index_views layout beyond two connections; _fill is proved for two connections',
                'Group._compute_root_scale_factors (how unit factor/offset and ref/ref0 entries are selected per input, incl. idx_list_to_index_array for array-valued ref/ref0 through index chains)',
                'solver iteration order (that a transfer happens before every subsystem evaluation): bounded tier only (block Gauss-Seidel)', 'discrete transfers, distributed/MPI transfers']
+
+
+def _c07_extra(tier, seed, native_run):
+    out = {'violations': [], 'errors': []}
+    r = _run_bounded('c07_setget.py', [tier], timeout=6000)
+    if 'error' in r:
+        out['errors'].append('bounded set/get tier could not run: ' + r['error'])
+        return out
+    out['bounded_set_get'] = {
+        'note': 'BOUNDED stand-in (not counted in obligations): real Problem.set_val / get_val; oracle = NumPy indexing on an independent copy (round trip returns the value; every other entry unchanged), read back in the same phase and after each later phase',
+        'bound': 'shapes (6,), (2,3), (2,2,3); names {absolute output, auto-IVC-backed promoted input, its absolute name, unconnected absolute input, connected input}; units {None, native, compatible other}; '
+                 'indices {None, ints, negative ints, +-step slices, lists, tuples of slices and lists (NumPy copy-with-base cases), Ellipsis}; phases {before final_setup, after final_setup, after run_model}%s'
+                 % ('' if tier != 'quick' else ' (quick: every third case + all tuple-with-list indices)'),
+        'evaluations': r['evaluations'], 'distinct_nontrivial': r['distinct_nontrivial'], 'exhaustive': True, 'failures': r['n_failures'], 'samples': r['samples']}
+    for f in r['failures'][:3]:
+        out['violations'].append(dict(f, what='set_val/get_val: ' + f['kind'], witness_id='c07-%s' % json_key(f)))
+    return out
+
+
+EXTRA_TIERS['C07'] = _c07_extra
+GAPS['C07'] = ['AllConnGraph.set_subarray (write-back through NumPy views / copies: aliasing is outside the NumPy model) and get_subarray index chains: BOUNDED tier only',
+               'name resolution (absolute / promoted / auto-IVC) and the delegation Problem.set_val -> System -> AllConnGraph.set_val/get_val: BOUNDED tier only',
+               'behaviour being the same before final_setup, after final_setup and after run_model: BOUNDED tier only (three phases, read back after each later phase)',
+               'incompatible units (TypeError text), discrete variables, distributed variables / get_remote, src_indices chains on the connected input']
